@@ -2,6 +2,7 @@
 options.
 """
 
+import codecs
 import os
 import typing
 import typing as t
@@ -1609,7 +1610,10 @@ class TemplateStream:
 
         try:
             if encoding is not None:
-                iterable = (x.encode(encoding, errors) for x in self)  # type: ignore
+                # encode incrementally so that codecs which write a byte
+                # order mark (utf-16, utf-32) do so only once
+                encoder = codecs.getincrementalencoder(encoding)(errors or "strict")
+                iterable = (encoder.encode(x) for x in self)  # type: ignore
             else:
                 iterable = self  # type: ignore
 
